@@ -476,11 +476,28 @@ def executes_before(fn: ast.AST, a: ast.AST, b: ast.AST) -> bool:
 # --------------------------------------------------------------------------
 
 
-def _atom_text(e: ast.AST) -> str:
-    if isinstance(e, ast.Compare) and len(e.ops) == 1 and isinstance(e.ops[0], (ast.Is, ast.Eq)):
-        a, b = sorted([ast.unparse(e.left), ast.unparse(e.comparators[0])])
-        return f"{a} {'is' if isinstance(e.ops[0], ast.Is) else '=='} {b}"
-    return ast.unparse(e)
+def _atom(e: ast.AST) -> Tuple[str, bool]:
+    """(canonical atom text, polarity): `a is b` / `b is a` are one atom; integer order comparisons are
+    normalised through au.cmp_norm so that `i >= w`, `not i < w`, `w <= i` are one atom and `i < w` its negation."""
+    if isinstance(e, ast.Compare) and len(e.ops) == 1:
+        op = e.ops[0]
+        if isinstance(op, (ast.Is, ast.IsNot)):
+            a, b = sorted([ast.unparse(e.left), ast.unparse(e.comparators[0])])
+            return f"{a} is {b}", isinstance(op, ast.Is)
+        if isinstance(op, (ast.In, ast.NotIn)):
+            return f"{ast.unparse(e.left)} in {ast.unparse(e.comparators[0])}", isinstance(op, ast.In)
+        if isinstance(op, (ast.Lt, ast.LtE, ast.Gt, ast.GtE)):
+            try:
+                k = au.cmp_norm(e)
+                kn = au.cmp_norm(ast.UnaryOp(ast.Not(), e))
+            except Exception:
+                k = kn = None
+            if k is not None and kn is not None:
+                return (f"{k[1]} <= 0", True) if k[1] <= kn[1] else (f"{kn[1]} <= 0", False)
+        if isinstance(op, (ast.Eq, ast.NotEq)):
+            a, b = sorted([ast.unparse(e.left), ast.unparse(e.comparators[0])])
+            return f"{a} == {b}", isinstance(op, ast.Eq)
+    return ast.unparse(e), True
 
 
 def _bool_eval(e: ast.AST, val: Dict[str, bool]) -> bool:
@@ -489,10 +506,8 @@ def _bool_eval(e: ast.AST, val: Dict[str, bool]) -> bool:
         return all(vs) if isinstance(e.op, ast.And) else any(vs)
     if isinstance(e, ast.UnaryOp) and isinstance(e.op, ast.Not):
         return not _bool_eval(e.operand, val)
-    if isinstance(e, ast.Compare) and len(e.ops) == 1 and isinstance(e.ops[0], (ast.IsNot, ast.NotEq, ast.NotIn)):
-        inv = {ast.IsNot: ast.Is, ast.NotEq: ast.Eq, ast.NotIn: ast.In}[type(e.ops[0])]
-        return not val[_atom_text(ast.Compare(e.left, [inv()], e.comparators))]
-    return val[_atom_text(e)]
+    k, pol = _atom(e)
+    return val[k] == pol
 
 
 def _bool_atoms(e: ast.AST, out: Set[str]) -> None:
@@ -501,11 +516,8 @@ def _bool_atoms(e: ast.AST, out: Set[str]) -> None:
             _bool_atoms(v, out)
     elif isinstance(e, ast.UnaryOp) and isinstance(e.op, ast.Not):
         _bool_atoms(e.operand, out)
-    elif isinstance(e, ast.Compare) and len(e.ops) == 1 and isinstance(e.ops[0], (ast.IsNot, ast.NotEq, ast.NotIn)):
-        inv = {ast.IsNot: ast.Is, ast.NotEq: ast.Eq, ast.NotIn: ast.In}[type(e.ops[0])]
-        out.add(_atom_text(ast.Compare(e.left, [inv()], e.comparators)))
     else:
-        out.add(_atom_text(e))
+        out.add(_atom(e)[0])
 
 
 def conds_imply(premises: List[Tuple[ast.AST, bool]], conclusion: List[Tuple[ast.AST, bool]], max_atoms: int = 12) -> Optional[bool]:
@@ -582,3 +594,64 @@ def cond_args(fn: ast.AST, node: ast.AST, pattern: str, pol: bool = True):
         if b is not None:
             return b
     return {}
+
+
+def _contradict(c1, c2) -> bool:
+    d = {id(t): p for t, p in c1}
+    return any(id(t) in d and d[id(t)] != p for t, p in c2)
+
+
+def alternatives(fn: ast.AST, e: ast.AST, conds: List[Tuple[ast.AST, bool]], depth: int = 5) -> List[Tuple[ast.AST, List[Tuple[ast.AST, bool]]]]:
+    """The values `e` can take at a use governed by `conds`, as [(expression over parameters, conditions)]:
+    singly-bound locals are replaced by their definition; a local bound on several branches (the canonical
+    form of a conditional expression, or of per-branch temporaries) gives one alternative per definition that
+    does not contradict the conditions collected so far; conditional expressions are split."""
+    import copy as _c
+
+    env = au.local_env(fn)
+    e = au.expand(e, env)
+    if depth <= 0:
+        return [(e, list(conds))]
+    params = {a.arg for a in ast.walk(fn.args) if isinstance(a, ast.arg)} if hasattr(fn, "args") else set()
+    for n in ast.walk(e):
+        if isinstance(n, ast.IfExp):
+            out = []
+            for val, pol in ((n.body, True), (n.orelse, False)):
+                e2 = _replace(e, n, val)
+                out += alternatives(fn, e2, list(conds) + [(n.test, pol)], depth - 1)
+            return out
+        if isinstance(n, ast.Name) and isinstance(n.ctx, ast.Load) and n.id not in env and n.id not in params:
+            defs = []
+            for st in au.walk_no_nested(fn):
+                if isinstance(st, ast.Assign) and len(st.targets) == 1 and isinstance(st.targets[0], ast.Name) and st.targets[0].id == n.id:
+                    defs.append((st.value, path_conditions(fn, st)))
+            if len(defs) >= 2:
+                out = []
+                for v, cds in defs:
+                    if _contradict(cds, conds):
+                        continue
+                    if any(isinstance(x, ast.Name) and x.id == n.id for x in ast.walk(v)):
+                        continue  # re-binding in terms of itself (x = f(x)): not a plain alternative
+                    merged = list(conds) + [c for c in cds if (id(c[0]), c[1]) not in {(id(t), p) for t, p in conds}]
+                    out += alternatives(fn, _replace(e, n, v), merged, depth - 1)
+                if out:
+                    return out
+    return [(e, list(conds))]
+
+
+def _replace(root: ast.AST, old: ast.AST, new: ast.AST) -> ast.AST:
+    import copy as _c
+
+    class Copy(ast.NodeTransformer):
+        def generic_visit(self, node):
+            if node is old:
+                return _c.deepcopy(new)
+            node = _c.copy(node)
+            for f, v in ast.iter_fields(node):
+                if isinstance(v, list):
+                    setattr(node, f, [self.generic_visit(x) if isinstance(x, ast.AST) else x for x in v])
+                elif isinstance(v, ast.AST):
+                    setattr(node, f, self.generic_visit(v))
+            return node
+
+    return ast.fix_missing_locations(Copy().generic_visit(root))
